@@ -1497,6 +1497,8 @@ class SpaceManager(SharedSpaceOperations):
                 raise ValueError("Cannot create reference '%s'" % name)
 
         self._check_subs_relrefs(space, name, value, refmode)
+        if other is not None:   # Global ref shadowed by the new ref
+            self.model.clear_attr_referrers(other)
         result = space.on_create_ref(name, value, is_derived=False,
                             refmode=refmode)
 
